@@ -7,3 +7,12 @@ use flacenc::component::Stream;
 pub fn parse_stream(bytes: &[u8]) -> Option<Stream> {
     parser::stream::<nom::error::Error<&[u8]>>(bytes).ok().map(|(_, s)| s)
 }
+
+/// Where and why `parser::stream` rejects `bytes` (debugging aid for the foreign-stream assembler).
+pub fn explain(bytes: &[u8]) -> String {
+    match parser::stream::<nom::error::Error<&[u8]>>(bytes) {
+        Ok((rest, s)) => format!("accepted: {} frame(s), {} byte(s) left", s.frame_count(), rest.len()),
+        Err(nom::Err::Error(e) | nom::Err::Failure(e)) => format!("rejected at byte {} of {} ({:?})", bytes.len() - e.input.len(), bytes.len(), e.code),
+        Err(nom::Err::Incomplete(n)) => format!("incomplete ({n:?})"),
+    }
+}
